@@ -66,6 +66,13 @@ check("C10",
   "Prefix/window sweeps are exhaustive over the first 700 bytes of each encoding in the quick tier and over the whole encoding in the thorough tier. GoldenTicket::deserialize_from_net and ApiMessage::deserialize are swept through their guarded callers.",
   "DESIGN.md §3 C10")
 
+check("C18",
+  "exhaustive enumeration of key-list subsets (placeholder patterns) on real blocks through the route's pipeline",
+  "exploration",
+  "Blocks with n = 0..8 (quick) / 0..11 (thorough) payments to distinct keys built by the real producer, with and without golden ticket and fee transaction; for every subset of the payee keys (every pattern of adjacent placeholders, 2^n per block) plus key lists that match only inputs or nothing: disk bytes -> decode -> generate -> generate_lite_block -> serialize -> decode -> generate. Checked: all 31 header fields, id, hash and signature equal the full block's; every transaction paying to or spending from a listed key is carried byte-identical (before and after the wire); the decoded lite block regenerates the same hash; MerkleTree::generate over the lite block's transactions reproduces the header's merkle root before and after the wire.",
+  "Key lists are subsets of payee keys plus two special lists; one payer. The HTTP framing of the route (warp) is not exercised, its body is.",
+  "DESIGN.md §3 C18")
+
 NOT_YET = "check not built yet in this session (work in progress, see DESIGN.md §8 build order); nothing is claimed for it"
 NA = {}
 
